@@ -2,10 +2,16 @@
 /root/.vp/BASELINE.json: every stable-pass test must still pass.
 usage: /venv/bin/python tools_baseline.py [pytest args...]"""
 import json, subprocess, sys, os, xml.etree.ElementTree as ET
-out = "/tmp/gb_baseline.junit.xml"
+REPO = "/repo"
+if "--repo" in sys.argv:
+    i = sys.argv.index("--repo")
+    REPO = sys.argv[i + 1]
+    del sys.argv[i : i + 2]
+out = f"/tmp/gb_baseline.{os.getpid()}.junit.xml"
 env = {k: v for k, v in os.environ.items() if k not in ("GROUPBY_LIB_VERIF", "NUMBA_BOUNDSCHECK")}
 cmd = ["/venv/bin/python", "-m", "pytest", "-ra", "-q", "-p", "no:cacheprovider", "--timeout=900", "--continue-on-collection-errors", f"--junitxml={out}"] + sys.argv[1:]
-r = subprocess.run(cmd, cwd="/repo", env=env, capture_output=True, text=True)
+env["PYTHONPATH"] = REPO
+r = subprocess.run(cmd, cwd=REPO, env=env, capture_output=True, text=True)
 print(r.stdout.splitlines()[-1] if r.stdout else r.stderr[-500:])
 base = set(json.load(open("/root/.vp/BASELINE.json"))["stable_pass"])
 passed = set()
